@@ -9,6 +9,7 @@ import (
 	"go/ast"
 	"go/token"
 	"go/types"
+	"sort"
 	"strconv"
 	"strings"
 
@@ -263,3 +264,171 @@ func ruleAnchorUniform(p *Prog, r *Report) {
 }
 
 var _ = types.Typ
+
+// ---- order of templates (first match wins in cisco.matchCmd) ----
+
+func ciNumeric(w string) bool {
+	if w == "" {
+		return false
+	}
+	for _, c := range w {
+		if c < '0' || c > '9' {
+			return false
+		}
+	}
+	return true
+}
+
+// ciTokSubsumes: every word matched by token b is matched by token a (single word tokens).
+func ciTokSubsumes(a, b string) bool {
+	switch a {
+	case "$NAME", "$REF":
+		return b != `"` && b != "*"
+	case "$SEQ":
+		return b == "$SEQ" || (b[0] != '$' && ciNumeric(b))
+	case `"`:
+		return b == `"` || (b[0] != '$' && b != "*")
+	}
+	return a == b
+}
+
+// ciTokOverlap: some word is matched by both tokens.
+func ciTokOverlap(a, b string) bool {
+	lit := func(s string) bool { return s[0] != '$' && s != `"` && s != "*" }
+	if lit(a) && lit(b) {
+		return a == b
+	}
+	if a == "$SEQ" && lit(b) {
+		return ciNumeric(b)
+	}
+	if b == "$SEQ" && lit(a) {
+		return ciNumeric(a)
+	}
+	return true
+}
+
+// ciSubsumes: every line matched by template b is matched by template a.
+func ciSubsumes(a, b []string) bool {
+	for k := 0; ; k++ {
+		if k == len(a) {
+			return k == len(b)
+		}
+		if k == len(b) {
+			return false
+		}
+		if a[k] == "*" {
+			return true // b has at least one more token, each token needs at least one word
+		}
+		if b[k] == "*" || !ciTokSubsumes(a[k], b[k]) {
+			return false
+		}
+	}
+}
+
+func ciOverlap(a, b []string) bool {
+	for k := 0; ; k++ {
+		if k == len(a) || k == len(b) {
+			return len(a) == len(b)
+		}
+		if a[k] == "*" || b[k] == "*" {
+			return true
+		}
+		if !ciTokOverlap(a[k], b[k]) {
+			return false
+		}
+	}
+}
+
+type ciPair struct {
+	Where          string // parent line or lookup prefix
+	Early, Late    *ciType
+	Shadowed, Spec bool // late is dead; early is the more specific one
+}
+
+// ciOrderedLists: the lists cisco.matchCmd walks in order: per lookup prefix the
+// top-level templates, per template its sub-commands.
+func ciOrderedLists(t *ciTable) map[string][]*ciType {
+	out := map[string][]*ciType{}
+	for _, c := range t.Types {
+		out["prefix "+c.Prefix] = append(out["prefix "+c.Prefix], c)
+		if len(c.Sub) > 0 {
+			out["sub of "+c.Prefix+" "+strings.Join(c.Template, " ")] = c.Sub
+		}
+	}
+	return out
+}
+
+func ciPairs(t *ciTable) []ciPair {
+	var out []ciPair
+	lists := ciOrderedLists(t)
+	var names []string
+	for n := range lists {
+		names = append(names, n)
+	}
+	sort.Strings(names)
+	for _, n := range names {
+		l := lists[n]
+		for j := range l {
+			for i := 0; i < j; i++ {
+				if !ciOverlap(l[i].Template, l[j].Template) {
+					continue
+				}
+				out = append(out, ciPair{n, l[i], l[j], ciSubsumes(l[i].Template, l[j].Template), ciSubsumes(l[j].Template, l[i].Template)})
+			}
+		}
+	}
+	return out
+}
+
+func ruleTemplateOrder(p *Prog, r *Report, rule string) {
+	r.rule(rule, "Order of the cmdInfo templates (asa, ios): cisco.matchCmd takes the first template of a list that matches. No template is shadowed by an earlier one of its list (it would be dead: an ignore entry `!x` behind ` *` turns the ignored line into a modelled one that is deleted when the target lacks it); where two templates of a list match a common line the earlier one is the more specific; the ignore entries are the audited ones (tables/cmdinfo_ignore.tsv).")
+	rows := readTable("cmdinfo_ignore.tsv", 4)
+	want := map[string]string{}
+	for _, row := range rows {
+		want[row[0]+"|"+row[1]+"|"+row[2]] = row[3]
+	}
+	nIgn := 0
+	for _, pkg := range []string{"asa", "ios"} {
+		t, err := readCmdInfo(p, pkg)
+		if err != nil {
+			r.fail(rule, "cmdinfo-readable|"+pkg, "", "cmdInfo table of "+pkg+" cannot be read statically", err.Error())
+			continue
+		}
+		pairs := ciPairs(t)
+		n := 0
+		for _, pr := range pairs {
+			n++
+			key := "order|" + pkg + "|" + pr.Where + "|" + pr.Late.Line
+			switch {
+			case pr.Shadowed:
+				r.add(rule, key, p.pos(t.Pos), "template `"+pr.Late.Line+"` ("+pr.Where+") can match", false,
+					"every line it matches is taken by the earlier template `"+pr.Early.Line+"`: the entry is dead (ignore="+fmt.Sprint(pr.Late.Ignore)+")")
+			case !pr.Spec:
+				r.add(rule, key+"|"+pr.Early.Line, p.pos(t.Pos), "templates `"+pr.Early.Line+"` and `"+pr.Late.Line+"` ("+pr.Where+") match a common line", false,
+					"neither is the more specific one; which one takes the line depends on their order")
+			default:
+				r.ok(rule, key+"|"+pr.Early.Line, p.pos(t.Pos), "`"+pr.Early.Line+"` comes before the more general `"+pr.Late.Line+"` ("+pr.Where+")")
+			}
+		}
+		got := map[string]bool{}
+		for where, l := range ciOrderedLists(t) {
+			for _, c := range l {
+				if c.Ignore {
+					got[pkg+"|"+where+"|"+c.Line] = true
+				}
+			}
+		}
+		for k := range got {
+			nIgn++
+			_, ok := want[k]
+			r.add(rule, "ignore|"+k, p.pos(t.Pos), "ignore entry "+k+" ("+want[k]+")", ok, "an ignore entry that is not audited: lines it matches are dropped from both configurations and never compared")
+		}
+		for k, why := range want {
+			if strings.HasPrefix(k, pkg+"|") && !got[k] {
+				r.add(rule, "ignore|"+k, p.pos(t.Pos), "ignore entry "+k+" ("+why+")", false, "the audited ignore entry is gone: the line is parsed as a modelled command now and deleted from the device when the target lacks it")
+			}
+		}
+		r.ok(rule, "pairs|"+pkg, p.pos(t.Pos), fmt.Sprintf("%s.cmdInfo: %d overlapping template pairs examined", pkg, n))
+	}
+	r.floor(rule, "ignore entries", nIgn, 5)
+}
